@@ -426,7 +426,9 @@ def _run(case, cfg, w):
                 # one was issued
                 taint[0] = min(m[0] for m in pending_mops)
                 stats['membership_ops_raced'] += 1
-            pending_mops.append([snap_before, n_log0
+            # in flight until every host has consumed the LAST message the
+            # operation published (emit_then publishes two)
+            pending_mops.append([snap_before, len(bus.log) - 1
                                  if len(bus.log) > n_log0 else None])
         snaps.append(copy.deepcopy(model.m))
         flights_update()
